@@ -9,6 +9,7 @@ import (
 	"path/filepath"
 	"sort"
 	"strings"
+	"sync"
 
 	"golang.org/x/tools/go/packages"
 )
@@ -73,6 +74,11 @@ type World struct {
 	intrinsicsUsed map[string]bool
 	globalDecls    []string
 	modsets        map[string][]string
+	symOnce        sync.Once
+	specSyms       []map[string]bool
+	specName       []string
+	axSyms         []map[string]bool
+	userSym        map[string]bool
 }
 
 func loadWorld(repo string, overlay map[string][]byte, trustedDir string) (*World, error) {
